@@ -9,6 +9,11 @@
   CDEC ut nf f1..fnf ng (0 id | 1 m c1..cm t)*
       → `Circuit.decompose(*free)` of a queue of multi-controlled X gates (kind 1) and opaque
         gates that decompose to themselves (kind 0).
+  DISP mode ut nf f.. ncls (fam nctl fb1 fb2)* ntemp (cls par ng gobj*)* gobj
+      → the glue of `gate.decompose` (QV/Model/DecomposeDispatch.lean).  gobj = `cls par ni init.. nc ctl..
+        nt tgt.. cb`; fam 0 plain | 1 xgate | 2 selfret | 3 table; fb = fall-back class of controlled_by with 1 / 2 controls or -1; mode 0 `decompose(*free)`,
+        1 `standard_decompositions(gate)`, 2 two levels of `decompose`, 3 the in-place variant
+        (C08-8), 4 the attach-controls variant (C08-9), 5 route.  Prints the returned gate objects.
   ACT n ng (gate)* m c1..cm t na i1..ina
       → run the given gate list (kinds: 0 x t | 1 cx c t | 2 ccx c0 c1 t | 3 rccx c0 c1 t)
         with `runS` on the listed basis states of an n-qubit register (na = 0: all 2^n) and
@@ -16,6 +21,7 @@
         failing basis state.
 -/
 import QV.Model.XDecompose
+import QV.Model.DecomposeDispatch
 open QV
 
 structure Rd where
@@ -90,9 +96,72 @@ def toArr (n : Nat) (b : Lab) : Array Bool := (Array.range n).map b
 def runSArr (n : Nat) (gs : List CGate) (s : Bool × Array Bool) : Bool × Array Bool :=
   gs.foldl (fun s g => let r := runS [g] (s.1, ofArr s.2); (r.1, toArr n r.2)) s
 
+def nextGObj : P Dec.GObj := do
+  let cls ← nextNat
+  let par ← nextInt
+  let ni ← nextNat
+  let init ← nextNats ni
+  let nc ← nextNat
+  let ctl ← nextNats nc
+  let nt ← nextNat
+  let tgt ← nextNats nt
+  let cb ← nextNat
+  pure { cls := cls, par := par, init := init, ctl := ctl, tgt := tgt, cb := cb == 1 }
+
+def showGObj (o : Dec.GObj) : String :=
+  s!"{o.cls} {o.par} {o.init} {o.ctl} {o.tgt} {if o.cb then 1 else 0}"
+
+def showDRes : Dec.Res → String
+  | .ok gs => " | ".intercalate (gs.map showGObj)
+  | .valueError => "ValueError"
+  | .notImplemented => "NotImplementedError"
+  | .outOfFuel => "out-of-fuel"
+
 def handle : P String := do
   let cmd ← nextTok
   match cmd with
+  | "DISP" =>
+    let mode ← nextNat
+    let ut ← nextNat
+    let nf ← nextNat
+    let fs ← nextNats nf
+    let ncls ← nextNat
+    let mut infos : Array Dec.ClassInfo := #[]
+    for _ in [0:ncls] do
+      let f ← nextNat
+      let k ← nextNat
+      let b1 ← nextInt
+      let b2 ← nextInt
+      let fam : Dec.Family := match f with | 0 => .plain | 1 => .xgate | 2 => .selfret | _ => .table
+      infos := infos.push { fam := fam, nctl := k, fb1 := if b1 < 0 then none else some b1.toNat,
+                            fb2 := if b2 < 0 then none else some b2.toNat }
+    let K : Dec.Classes := fun c => infos.getD c { fam := .plain, nctl := 0 }
+    let ntemp ← nextNat
+    let mut temps : List (Nat × Int × List Dec.GObj) := []
+    for _ in [0:ntemp] do
+      let c ← nextNat
+      let p ← nextInt
+      let ng ← nextNat
+      let mut gs : List Dec.GObj := []
+      for _ in [0:ng] do
+        gs := (← nextGObj) :: gs
+      temps := (c, p, gs.reverse) :: temps
+    let T : Dec.Templates := fun c p =>
+      match temps.find? (fun e => e.1 == c && e.2.1 == p) with
+      | some e => e.2.2
+      | none => []
+    let o ← nextGObj
+    match mode with
+    | 0 => pure (showDRes (Dec.decompose K T (ut == 1) fs o))
+    | 1 => pure (showDRes (.ok (Dec.tableCall K T o)))
+    | 2 =>
+      match Dec.decompose K T (ut == 1) fs o with
+      | .ok gs => pure (showDRes (Dec.decomposeAll K T (ut == 1) fs gs))
+      | e => pure (showDRes e)
+    | 3 => pure (showDRes (.ok (Dec.tableCallInPlace K T o)))
+    | 4 => pure (showDRes (.ok (Dec.tableCallAttach K T o)))
+    | _ => pure (match Dec.route K o with
+        | .unchanged => "unchanged" | .table => "table" | .mcx => "mcx" | .self => "self")
   | "XDEC" =>
     let ut ← nextNat
     let m ← nextNat
